@@ -136,8 +136,21 @@ def run(ctx):
                             flag_ok = True
                 if not flag_ok:
                     bad.append(m)
+            # the flag itself: on the full branch it is `queue_size > 1` (a queue of one entry replaces silently), nothing else
+            flagdefs = []
+            for m, bb in marks:
+                for lit, e in F.literals_at(bb):
+                    if lit[0] == 'truth' and lit[2] is True and lit[1][0] == 'place' and not lit[1][2]:
+                        for d in b.defs().get(lit[1][1], []):
+                            if d[0] == 'stmt' and not (d[3][0] == 'use' and d[3][1][0] == 'k'):
+                                flagdefs.append(fmt_sym(b, F.sym_rvalue(d[3], 0, d[1])))
+                            elif d[0] != 'stmt':
+                                flagdefs.append(d[2].callee)
+            wrong = sorted({x for x in flagdefs if not re.match(r'^\(\(\*self\(_1\)\)\.queue_size Gt 1\)$', x)})
+            if wrong and not bad:
+                bad = ['overflow flag computed as %s instead of queue_size > 1' % wrong[0][:80]]
             if bad:
-                r.fail('overflow', 'enqueue:marks', 'overflow marking %s can happen without the queue having been full' % bad, loc=b.loc)
+                r.fail('overflow', 'enqueue:marks', 'overflow marking is wrong: %s' % bad, loc=b.loc)
             else:
                 r.ok('overflow', 'enqueue:marks', 'OVERFLOW bit and queue_overflow are written only under a flag that is false unless `len == queue_size`', loc=b.loc)
     # ------------------------------------------------------------ modify
